@@ -337,6 +337,9 @@ pub assume_specification<T, P: FnOnce(&T) -> bool>[ Option::<T>::filter ](o: Opt
     requires o is Some ==> p.requires((&o->0,)),
     ensures o is None ==> r is None,
             o is Some ==> (exists|b: bool| p.ensures((&o->0,), b) && (if b { r == o } else { r is None }));
+pub assume_specification[ i32::is_negative ](x: i32) -> (r: bool) ensures r == (x < 0);
+pub assume_specification[ i32::saturating_neg ](x: i32) -> (r: i32)
+    ensures x == i32::MIN ==> r == i32::MAX, x != i32::MIN ==> r == -x;
 // ---- DST interval of one year (C03): exact specs of DstInfo::in_dst / ordered over the derived order ----
 pub open spec fn in_dst_spec(s: IDateTime, e: IDateTime, dt: IDateTime) -> bool {
     if dt_le(s, e) { dt_le(s, dt) && dt_lt(dt, e) } else { !(dt_le(e, dt) && dt_lt(dt, s)) }
@@ -476,6 +479,66 @@ impl PosixTimeZone {
     }
     pub open spec fn offset_of(&self, dst: bool) -> int { if dst { self.dst->0.offset.second as int } else { self.std_offset.second as int } }
     pub open spec fn abbrev_of(&self, dst: bool) -> Seq<char> { if dst { self.dst->0.abbrev.text() } else { self.std_abbrev.text() } }
+}
+// ---- civil datetime -> offset(s) (C04) ----
+/// nanosecond key of `s` moved by d wall-clock seconds, sub-second part dropped (= what IDateTime::saturating_add_seconds
+/// computes inside the representable range; for every s produced by an unclamped rule the sub-second part is 0 anyway)
+pub open spec fn shift(s: IDateTime, d: int) -> int { (loc(s) + d) * 1_000_000_000 }
+/// contract of IDateTime::saturating_add_seconds as a predicate
+pub open spec fn sat_add_post(s: IDateTime, seconds: int, r: IDateTime) -> bool {
+    let q = s.date.rd() + (s.time.hour * 3600 + s.time.minute * 60 + s.time.second + seconds) / 86400;
+    (-4371587 <= q <= 2932896 ==> dt_wf(r) && loc(r) == loc(s) + seconds && r.time.subsec_nanosecond == 0)
+    && (!(-4371587 <= q <= 2932896) ==> r == (if seconds < 0 { IDateTime::MIN } else { IDateTime::MAX }))
+}
+/// comparing against a saturated sum is comparing against the exact sum, except at IDateTime::MAX
+pub proof fn lemma_sat_shift(s: IDateTime, seconds: int, r: IDateTime, dt: IDateTime)
+    requires dt_wf(s), dt_wf(dt), sat_add_post(s, seconds, r), dt != IDateTime::MAX,
+    ensures dt_wf(r), dt_le(r, dt) == (shift(s, seconds) <= key(dt)), dt_lt(dt, r) == (key(dt) < shift(s, seconds)),
+{
+    lemma_rd_epoch();
+    lemma_rd_bounds(s.date.year as int, s.date.month as int, s.date.day as int);
+    lemma_rd_bounds(dt.date.year as int, dt.date.month as int, dt.date.day as int);
+    lemma_key_loc(s); lemma_key_loc(dt);
+    assert(dt_wf(IDateTime::MIN) && dt_wf(IDateTime::MAX));
+    assert(dt_wf(r));
+    lemma_key_loc(r);
+    lemma_dt_order(r, dt); lemma_dt_order(dt, r);
+    lemma_dt_order(dt, IDateTime::MAX);
+}
+impl PosixTimeZone {
+    /// data assumption (C04): the ambiguity windows do not stick out of the period they belong to, i.e. within the
+    /// calendar year the DST period (DST ahead of standard) resp. the standard period (DST behind) is at least
+    /// |dst - std| long.
+    pub open spec fn wall_sep(&self, y: i16) -> bool {
+        self.dst is Some ==> {
+            let s = self.wall_start(y); let e = self.wall_end(y);
+            let diff = self.dst->0.offset.second - self.std_offset.second;
+            (diff > 0 && dt_le(s, e) ==> shift(s, diff) <= key(e) && key(s) <= shift(e, -diff))
+            && (diff < 0 && !dt_le(s, e) ==> key(e) <= shift(s, diff) && shift(e, -diff) <= key(s))
+        }
+    }
+    /// C04: classification of wall-clock datetime dt.  S = start of DST, E = end of DST on the wall clock of dt's year,
+    /// diff = dst - std.  diff > 0: [S, S+diff) is skipped (gap std->dst), [E-diff, E) is repeated (fold dst->std);
+    /// diff < 0: [S+diff, S) is repeated (fold std->dst), [E, E-diff) is skipped (gap dst->std).
+    pub open spec fn amb_spec(&self, dt: IDateTime) -> IAmbiguousOffset {
+        let std = IOffset { second: self.std_offset.second };
+        if self.dst is None { IAmbiguousOffset::Unambiguous { offset: std } } else {
+            let dst = IOffset { second: self.dst->0.offset.second };
+            let s = self.wall_start(dt.date.year); let e = self.wall_end(dt.date.year);
+            let diff = dst.second - std.second;
+            let k = key(dt);
+            if diff == 0 { IAmbiguousOffset::Unambiguous { offset: std } }
+            else if diff > 0 {
+                if key(s) <= k < shift(s, diff) { IAmbiguousOffset::Gap { before: std, after: dst } }
+                else if shift(e, -diff) <= k < key(e) { IAmbiguousOffset::Fold { before: dst, after: std } }
+                else { IAmbiguousOffset::Unambiguous { offset: if in_dst_spec(s, e, dt) { dst } else { std } } }
+            } else {
+                if shift(s, diff) <= k < key(s) { IAmbiguousOffset::Fold { before: std, after: dst } }
+                else if key(e) <= k < shift(e, -diff) { IAmbiguousOffset::Gap { before: dst, after: std } }
+                else { IAmbiguousOffset::Unambiguous { offset: if in_dst_spec(s, e, dt) { dst } else { std } } }
+            }
+        }
+    }
 }
 pub open spec fn ordered_spec(s: IDateTime, e: IDateTime) -> (IDateTime, IDateTime) {
     if dt_le(s, e) { (s, e) } else { (e, s) }
@@ -675,11 +738,7 @@ pub const MAX: IDateTime = IDateTime { date: IDate::MAX, time: ITime::MAX };
     requires
         self.date.wf(), self.time.wf(), seconds + 86399 <= i32::MAX,
     ensures
-        (-4371587 <= self.date.rd() + (self.time.hour * 3600 + self.time.minute * 60 + self.time.second + seconds) / 86400 <= 2932896)
-      ==> r.date.wf() && r.time.wf() && r.date.rd() * 86400 + r.time.hour * 3600 + r.time.minute * 60 + r.time.second
-           == self.date.rd() * 86400 + self.time.hour * 3600 + self.time.minute * 60 + self.time.second + seconds,
-    !(-4371587 <= self.date.rd() + (self.time.hour * 3600 + self.time.minute * 60 + self.time.second + seconds) / 86400 <= 2932896)
-      ==> r == (if seconds < 0 { IDateTime::MIN } else { IDateTime::MAX }),
+        sat_add_post(*self, seconds as int, r),
 {
         self.checked_add_seconds(seconds).unwrap_or_else(|_e: Error| -> (r: IDateTime) ensures r == (if seconds < 0 { IDateTime::MIN } else { IDateTime::MAX }) {
             if seconds < 0 {
@@ -1894,7 +1953,7 @@ pub fn to_offset(&self, timestamp: ITimestamp) -> (r: IOffset)
         }
 
         let dt = timestamp.to_datetime(IOffset::UTC);
-        proof { lemma_dt_of_key(dt); } assert(false);
+        proof { lemma_dt_of_key(dt); }
 
         self.dst_info_utc(dt.date.year)
             .filter(|dst_info: &DstInfo<'_>| -> (b: bool) ensures b == in_dst_spec(dst_info.start, dst_info.end, dt) { dst_info.in_dst(dt) })
@@ -1922,7 +1981,7 @@ pub fn to_offset_info(
         }
 
         let dt = timestamp.to_datetime(IOffset::UTC);
-        proof { lemma_dt_of_key(dt); } assert(false);
+        proof { lemma_dt_of_key(dt); }
 
         self.dst_info_utc(dt.date.year)
             .filter(|dst_info: &DstInfo<'_>| -> (b: bool) ensures b == in_dst_spec(dst_info.start, dst_info.end, dt) { dst_info.in_dst(dt) })
@@ -1934,6 +1993,117 @@ pub fn to_offset_info(
                 )
             })
             .unwrap_or_else(|| -> (o: (IOffset, &str, bool)) ensures o.0 == std_offset, o.1@ == self.std_abbrev.text(), o.2 == false { (std_offset, self.std_abbrev.as_ref(), false) })
+    }
+}
+
+impl PosixTimeZone {
+// @fn PosixTimeZone::to_ambiguous_kind @src src/shared/posix.rs:102
+pub fn to_ambiguous_kind(&self, dt: IDateTime) -> (r: IAmbiguousOffset)
+    requires
+        self.wf(), dt_wf(dt),
+    // data assumption, see wall_sep
+    true,
+    // carve-out: at the very last representable civil datetime the saturated window end IDateTime::MAX is not
+    // strictly above dt although the exact window end is (reported as a finding)
+    dt != IDateTime::MAX,
+    ensures
+        r == self.amb_spec(dt),
+{
+        hide(key); hide(loc); hide(shift); hide(sat_add_post); hide(rd);
+
+        let year = dt.date.year;
+        let std_offset = self.std_offset.to_ioffset();
+        let Some(dst_info) = self.dst_info_wall(year) else {
+            return IAmbiguousOffset::Unambiguous { offset: std_offset };
+        };
+        proof {
+            lemma_dt_order(dst_info.start, dst_info.end);
+            lemma_dt_order(dst_info.start, dt); lemma_dt_order(dt, dst_info.start);
+            lemma_dt_order(dst_info.end, dt); lemma_dt_order(dt, dst_info.end);
+        }
+
+        let dst_offset = dst_info.offset().to_ioffset();
+        let diff = dst_offset.second - std_offset.second;
+        
+        
+        
+        
+        
+        
+        
+        
+        
+        
+        
+        
+        
+        
+        if diff == 0 {
+            { let verif_da: bool = (std_offset) == (dst_offset); assert(verif_da); };
+            IAmbiguousOffset::Unambiguous { offset: std_offset }
+        } else if diff.is_negative() {
+            
+            
+            
+            if dst_info.in_dst(dt) {
+                IAmbiguousOffset::Unambiguous { offset: dst_offset }
+            } else {
+                let fold_start = dst_info.start.saturating_add_seconds(diff);
+                let gap_end =
+                    dst_info.end.saturating_add_seconds(diff.saturating_neg());
+                proof {
+                    lemma_sat_shift(dst_info.start, diff as int, fold_start, dt);
+                    lemma_sat_shift(dst_info.end, -(diff as int), gap_end, dt);
+                }
+
+                if fold_start <= dt && dt < dst_info.start {
+                    IAmbiguousOffset::Fold {
+                        before: std_offset,
+                        after: dst_offset,
+                    }
+                } else if dst_info.end <= dt && dt < gap_end {
+                    IAmbiguousOffset::Gap {
+                        before: dst_offset,
+                        after: std_offset,
+                    }
+                } else {
+                    IAmbiguousOffset::Unambiguous { offset: std_offset }
+                }
+            }
+        } else {
+            
+            
+            
+            if !dst_info.in_dst(dt) {
+                IAmbiguousOffset::Unambiguous { offset: std_offset }
+            } else {
+                
+                
+                
+                
+                let gap_end = dst_info.start.saturating_add_seconds(diff);
+                let fold_start =
+                    dst_info.end.saturating_add_seconds(diff.saturating_neg());
+                proof {
+                    lemma_sat_shift(dst_info.start, diff as int, gap_end, dt);
+                    lemma_sat_shift(dst_info.end, -(diff as int), fold_start, dt);
+                }
+
+                if dst_info.start <= dt && dt < gap_end {
+                    IAmbiguousOffset::Gap {
+                        before: std_offset,
+                        after: dst_offset,
+                    }
+                } else if fold_start <= dt && dt < dst_info.end {
+                    IAmbiguousOffset::Fold {
+                        before: dst_offset,
+                        after: std_offset,
+                    }
+                } else {
+                    IAmbiguousOffset::Unambiguous { offset: dst_offset }
+                }
+            }
+        }
     }
 }
 
